@@ -198,11 +198,19 @@ func verifyAllSignatures(chainID string, lb *types.LightBlock) error {
 //   - the block ID's must be different
 //   - The signatures must both be valid
 func VerifyDuplicateVote(e *types.DuplicateVoteEvidence, chainID string, valSet *types.ValidatorSet) error {
-	_, val := valSet.GetByAddress(e.VoteA.ValidatorAddress)
+	idx, val := valSet.GetByAddress(e.VoteA.ValidatorAddress)
 	if val == nil {
 		return fmt.Errorf("address %X was not a validator at height %d", e.VoteA.ValidatorAddress, e.Height())
 	}
 	pubKey := val.PubKey
+
+	// The validator index is not covered by the vote signatures but is part of the evidence hash, hence it must be
+	// the index of the validator in the validator set, otherwise the same two votes make any number of
+	// different evidence
+	if e.VoteA.ValidatorIndex != idx || e.VoteB.ValidatorIndex != idx {
+		return fmt.Errorf("validator indexes of the votes (%d, %d) do not match the validator set: %X is validator #%d",
+			e.VoteA.ValidatorIndex, e.VoteB.ValidatorIndex, e.VoteA.ValidatorAddress, idx)
+	}
 
 	// H/R/S must be the same
 	if e.VoteA.Height != e.VoteB.Height ||
